@@ -14,9 +14,9 @@ def run(ctx):
     ctx.rule("R09.2", "every CommandState::spawn is preceded on its path by to_spawnable, reset (previous run saved) and exactly one awaited "
                       "SpawnHook::call on the same spawnable with {current: &command_state, previous: previous_run.as_ref()}")
     ctx.rule("R09.3", "CommandState::reset leaves the state Pending and returns the previous run unchanged (Finished) or as Finished{Continued} (Running)")
-    ctx.rule("R09.6", "helpers the effect rows rely on: signal_child delivers the requested signal (SIGTERM when it has no OS equivalent) and never kills; "
+    ctx.rule("R09.6", "helpers the effect rows rely on: signal_child delivers the requested signal (SIGTERM when it has no OS equivalent) and never kills; Flag wake protocol (poll never unregisters another waiter); "
                       "an expired grace timer injects Stop / ContinueTryGracefulRestart with the timer's own flag (shared with R06.2 / R06.6)")
-    ctx.rule("R09.5", "each public Job method enqueues exactly the documented controls at the documented priority")
+    ctx.rule("R09.5", "each public Job method enqueues exactly the documented controls at the documented priority, and each priority travels on the queue of that name (sender and receiver ends paired)")
     try:
         B = jobtask.Bodies(ctx, "R09.1")
         jobrules.effect_table(ctx, B)
@@ -24,7 +24,7 @@ def run(ctx):
         jobrules.callbox_table(ctx, "R09.2")
     except Skip:
         pass
-    for fn, rule in ((jobrules.reset_summary, "R09.3"), (jobrules.signal_child_rule, "R09.6"), (jobrules.timer_summaries, "R09.6"), (jobrules.ticket_shape, "R09.6")):
+    for fn, rule in ((jobrules.reset_summary, "R09.3"), (jobrules.signal_child_rule, "R09.6"), (jobrules.timer_summaries, "R09.6"), (jobrules.ticket_shape, "R09.6"), (jobrules.wake_protocol, "R09.6"), (jobrules.channel_pairing, "R09.5")):
         try:
             fn(ctx, rule)
         except Skip:
